@@ -3,7 +3,7 @@
 The loop body `frmin, ... = field.extent; row = slice(frmin-rmin, frmax-rmin+1); col = slice(fcmin-cmin, fcmax-cmin+1)` is
 translated as a function of the bounding box (`rmin, rmax, cmin, cmax = boundary(fields)`) and one field extent. `Lentil.mergeL` (Model/Field.lean) addresses its members through this generated definition (`Gen.mergeSlice`), so a change of
 `_merge_slices` flows into `merge_emb`; `Props/C06.merge_slices_spec` states its closed form and that it is in range."""
-import ast
+import ast, re
 from py2lean import V, S, Refuse
 
 def _merge_slices_step(tr, stmts):
@@ -176,6 +176,161 @@ def insertAccumInPlace : Bool × Bool := ({b(inplace[0])}, {b(inplace[1])})
 """
     return text, ['insert: accumulation statements of both branches']
 
+
+# ------------------------------------------------------------------------------------------------ _mul_broadcast
+def _mul_broadcast_block(tr, stmts):
+    """`lentil.field._mul_broadcast` as index/branch logic. The two array parameters `a_data`, `b_data` enter through what the
+    function reads of them — `.shape` (pair) and `.size` (int) — and `X_data = np.broadcast_to(X_data, Y_data.shape)` is read as
+    `X_shape = Y_shape; X_size = Y_size; X_bc = 1` (the broadcast array has the target's shape and element count; the flag
+    records that its samples are now copies of the single sample). Every other use of the arrays is refused. Emits
+    (a_bc, a_shape, a_offset, b_bc, b_shape, b_offset) for the final `return a_data, a_offset, b_data, b_offset`."""
+    body = [s for s in stmts if not (isinstance(s, ast.Expr) and isinstance(getattr(s, 'value', None), ast.Constant))]
+    if not body or ast.dump(body[-1]) != ast.dump(ast.parse('return a_data, a_offset, b_data, b_offset').body[0]):
+        raise Refuse('_mul_broadcast: final return changed')
+    arrs = {'a_data': 'a', 'b_data': 'b'}
+    class Rw(ast.NodeTransformer):
+        def visit_Attribute(self, node):
+            if isinstance(node.value, ast.Name) and node.value.id in arrs and node.attr in ('shape', 'size'):
+                return ast.Name(id=f'{arrs[node.value.id]}_{node.attr}', ctx=ast.Load())
+            return self.generic_visit(node)
+    def rw_stmts(sts):
+        out = []
+        for st in sts:
+            if isinstance(st, ast.Assign) and len(st.targets) == 1 and isinstance(st.targets[0], ast.Name) and st.targets[0].id in arrs:
+                x = st.targets[0].id
+                m = re.fullmatch(r'np\.broadcast_to\((a_data|b_data), (a_data|b_data)\.shape\)', ast.unparse(st.value))
+                if not m or m.group(1) != x or m.group(2) == x: raise Refuse('_mul_broadcast: array assignment not understood: ' + ast.unparse(st)[:80])
+                p, q = arrs[x], arrs[m.group(2)]
+                out += ast.parse(f'{p}_shape = {q}_shape\n{p}_size = {q}_size\n{p}_bc = 1').body
+            elif isinstance(st, ast.If):
+                out.append(ast.If(test=Rw().visit(st.test), body=rw_stmts(st.body), orelse=rw_stmts(st.orelse)))
+            elif isinstance(st, (ast.Return, ast.Raise)):
+                raise Refuse('_mul_broadcast: early exit')
+            else:
+                out.append(Rw().visit(st))
+        return out
+    import copy
+    new = ast.parse('a_bc = 0\nb_bc = 0').body + rw_stmts(copy.deepcopy(body[:-1]))
+    for st in new:
+        ast.fix_missing_locations(st)
+        for n in ast.walk(st):
+            if isinstance(n, ast.Name) and n.id in arrs: raise Refuse('_mul_broadcast: array used other than through .shape/.size/broadcast_to')
+    return new, lambda env: V([env['a_bc'], env['a_shape'], env['a_offset'], env['b_bc'], env['b_shape'], env['b_offset']])
+
+FIELDBROADCAST = {
+    '_mul_broadcast': {'lean_name': 'mulBroadcast', 'block': _mul_broadcast_block,
+                       'params': [('a_shape', 'pair'), ('a_size', 'int'), ('a_offset', 'pair'),
+                                  ('b_shape', 'pair'), ('b_size', 'int'), ('b_offset', 'pair')]},
+}
+
+# ------------------------------------------------------------------------------------------------ Field._mul_array
+def _extent_rets(repo):
+    """return shapes of the extent.py functions (translated for their shapes only; the generated text calls Gen/Extent.lean)"""
+    import os, gen_specs
+    from py2lean import FnTranslator
+    mod = ast.parse(open(os.path.join(repo, 'lentil/extent.py')).read())
+    fns = {n.name: n for n in ast.walk(mod) if isinstance(n, ast.FunctionDef)}
+    rets = {}
+    for name, sig in gen_specs.EXTENT.items():
+        if name not in fns: raise Refuse(f'extent.py: {name} not found')
+        _, _, rets[name] = FnTranslator(None, fns[name], sig, gen_specs.EXTENT, rets).translate()
+    return rets
+
+def _mul_array_block(tr, stmts):
+    """`Field._mul_array` after its `_mul_broadcast` call (checked textually, argument order included): the two
+    `array_extent` calls, the `intersect` test, `intersection_slices` and `intersection_shift`, as a function of the shapes and
+    offsets `_mul_broadcast` returned; `data = self_data[self_slice] * other_data[other_slice]` (array work, hand model
+    `Fld.mulArr`) and the empty result `data = []; offset = None` are checked textually. Emits
+    `some (self_slice, other_slice, offset)` / `none`."""
+    body = [s for s in stmts if not (isinstance(s, ast.Expr) and isinstance(getattr(s, 'value', None), ast.Constant))]
+    if len(body) != 5: raise Refuse('_mul_array: expected 5 statements')
+    same = lambda st, txt: ast.dump(st) == ast.dump(ast.parse(txt).body[0])
+    if not same(body[0], 'self_data, self_offset, other_data, other_offset = _mul_broadcast(self.data, self.offset, other.data, other.offset)'):
+        raise Refuse('_mul_array: _mul_broadcast call changed: ' + ast.unparse(body[0])[:100])
+    if not same(body[4], 'return data, offset'): raise Refuse('_mul_array: return changed')
+    node = body[3]
+    if not isinstance(node, ast.If) or len(node.body) != 3 or [ast.unparse(x) for x in node.orelse] != ['data = []', 'offset = None']:
+        raise Refuse('_mul_array: branches changed')
+    if ast.unparse(node.body[1]) != 'data = self_data[self_slice] * other_data[other_slice]': raise Refuse('_mul_array: product statement changed')
+    some = ast.parse('return (self_slice, other_slice, offset)').body[0]
+    none = ast.parse('return ()').body[0]
+    new_if = ast.fix_missing_locations(ast.If(test=node.test, body=[node.body[0], node.body[2], some], orelse=[none]))
+    return [body[1], body[2], new_if], None
+
+_SHP = ('attr', {'shape': 'pair'})
+FIELDMULARRAY = {
+    '_mul_array': {'lean_name': 'mulArrayIdx', 'block': _mul_array_block,
+                   'params': [('self_data', _SHP), ('self_offset', 'pair'), ('other_data', _SHP), ('other_offset', 'pair')]},
+}
+
+def _generate_with_extent(SIGS, note):
+    """generator for functions of field.py that call lentil.extent.*: the generated text calls the definitions of Gen/Extent.lean
+    (their signatures / return shapes are recomputed from extent.py by the same translator)"""
+    def gen(repo):
+        import os, gen_specs
+        from py2lean import FnTranslator
+        mod = ast.parse(open(os.path.join(repo, 'lentil/field.py')).read())
+        fns = {}
+        for n in ast.walk(mod):
+            if isinstance(n, ast.FunctionDef):
+                if n.name in fns: raise Refuse(f'field.py: two functions named {n.name}')
+                fns[n.name] = n
+        shp = fns.get('shape')
+        if shp is None or [ast.unparse(x) for x in shp.body if not (isinstance(x, ast.Expr) and isinstance(x.value, ast.Constant))] != ['return self.data.shape'] \
+                or [ast.unparse(d) for d in shp.decorator_list] != ['property']:
+            raise Refuse('field.py: the property Field.shape is not `return self.data.shape`')
+        rets = _extent_rets(repo)
+        all_sigs = dict(gen_specs.EXTENT); all_sigs.update(SIGS)
+        out = []
+        for name, sig in SIGS.items():
+            py = sig.get('py_name', name)
+            if py not in fns: raise Refuse(f'field.py: function {py} not found')
+            t = FnTranslator(None, fns[py], sig, all_sigs, rets)
+            try:
+                lname, text, ret = t.translate()
+            except Refuse as e:
+                raise Refuse(f'field.py:{name}: {e}')
+            except (AttributeError, IndexError, KeyError, TypeError, ValueError) as e:
+                raise Refuse(f'field.py:{name}: source structure changed ({type(e).__name__}: {e})')
+            out.append(f'/-- translated from `field.py:{name}` (line {fns[py].lineno}); calls the definitions of Gen/Extent.lean -/\n' + text)
+        return '\n'.join(out), [note]
+    return gen
+
+generate_mul_array = _generate_with_extent(FIELDMULARRAY, '_mul_array: index flow after _mul_broadcast; the array product and the empty result are checked textually')
+
+# ------------------------------------------------------------------------------------------------ Field.__init__
+def _field_init_block(tr, stmts):
+    """`Field.__init__`: `self.offset = offset if offset is not None else [0, 0]` and
+    `self.extent = lentil.extent.array_extent(self.shape, self.offset)` with `self.X` read as the local `self_X` and
+    `self.shape` (the property `return self.data.shape`, checked by the generator) as the parameter `shape`; the other three
+    attribute assignments (data / pixelscale / tilt) are matched textually. Emits (self.offset, self.extent)."""
+    body = [s for s in stmts if not (isinstance(s, ast.Expr) and isinstance(getattr(s, 'value', None), ast.Constant))]
+    want = ['data', 'pixelscale', 'offset', 'tilt', 'extent']
+    tg = [ast.unparse(s.targets[0]) if isinstance(s, ast.Assign) and len(s.targets) == 1 else '?' for s in body]
+    if tg != ['self.' + w for w in want]: raise Refuse('Field.__init__: attribute assignments changed: ' + ', '.join(tg))
+    same = lambda st, txt: ast.dump(st) == ast.dump(ast.parse(txt).body[0])
+    if not same(body[0], 'self.data = np.asarray(data, dtype=complex)') or not same(body[1], 'self.pixelscale = pixelscale') \
+            or not same(body[3], 'self.tilt = tilt if tilt else []'):
+        raise Refuse('Field.__init__: data / pixelscale / tilt assignment changed')
+    class Rw(ast.NodeTransformer):
+        def visit_Attribute(self, node):
+            if isinstance(node.value, ast.Name) and node.value.id == 'self':
+                if node.attr == 'shape': return ast.Name(id='shape', ctx=ast.Load())
+                if node.attr in ('offset', 'extent'): return ast.Name(id='self_' + node.attr, ctx=node.ctx)
+                raise Refuse('Field.__init__: reads self.' + node.attr)
+            return self.generic_visit(node)
+    import copy
+    new = [ast.fix_missing_locations(Rw().visit(copy.deepcopy(body[i]))) for i in (2, 4)]
+    return new, lambda env: V([env['self_offset'], env['self_extent']])
+
+FIELDINIT = {
+    '__init__': {'lean_name': 'fieldInit', 'block': _field_init_block, 'params': [('shape', 'pair'), ('offset', 'pair')]},
+    '__init__#default': {'py_name': '__init__', 'lean_name': 'fieldInitDefault', 'block': _field_init_block,
+                         'params': [('shape', 'pair'), ('offset', 'none')]},
+}
+
+generate_field_init = _generate_with_extent(FIELDINIT, 'Field.__init__: offset default and cached extent; data / pixelscale / tilt assignments checked textually')
+
 FIELDDISPATCH = {
     # Field.__mul__: `if self.size == 1 and other.size == 1:` -> _mul_scalar, else _mul_array
     '__mul__#both_one': {'py_name': '__mul__', 'lean_name': 'mulBothOne', 'params': [('self', _SZ), ('other', _SZ)],
@@ -199,6 +354,9 @@ FIELDDISPATCH = {
 }
 
 MODULES = [
+    {'name': 'FieldInit', 'src': 'lentil/field.py', 'generator': generate_field_init, 'props': ['C06'], 'imports': ['LentilVerif.Gen.Extent']},
+    {'name': 'FieldMulArray', 'src': 'lentil/field.py', 'generator': generate_mul_array, 'props': ['C06'], 'imports': ['LentilVerif.Gen.Extent']},
+    {'name': 'FieldBroadcast', 'src': 'lentil/field.py', 'sigs': FIELDBROADCAST, 'props': ['C06'], 'imports': []},
     {'name': 'FieldAccum', 'src': 'lentil/field.py', 'generator': generate_accum, 'props': ['C06', 'C07', 'C02', 'C03', 'C04', 'C05', 'C09'], 'imports': []},
     {'name': 'FieldDispatch', 'src': 'lentil/field.py', 'sigs': FIELDDISPATCH, 'props': ['C06', 'C07', 'C02', 'C03', 'C04', 'C05', 'C09'], 'imports': []},
     {'name': 'FieldMerge', 'src': 'lentil/field.py', 'sigs': FIELDMERGE, 'props': ['C06', 'C07', 'C02', 'C03', 'C04', 'C05', 'C09'], 'imports': []},
